@@ -87,6 +87,7 @@ func one() core.RatP  { return core.NumR(1) }
 func c17(c *core.Check) {
 	_ = c
 	c.Explain = "Each routine of package matrix is normalised, without executing it, to a polynomial in its inputs (global value numbering over SSA, exact rational coefficients, sin/cos/tan uninterpreted) and compared with the specification matrix of CSS Transforms / SVG; in-place operations are compared with right multiplication by the corresponding constructor; the CSS and SVG plumbing (vocabulary, arity, argument order, left-to-right composition, transform-origin conjugation, degree/radian factors, angle-unit table) is checked on the AST/SSA. Float rounding and overflow are outside the abstraction."
+	c17Determinant(c)
 	c.Assume = []string{"float32/float64 conversions are treated as identity", "the group laws follow from the laws of 2x3 affine matrices once each routine equals its specification matrix (mathematics, not re-proved)"}
 
 	r1 := c.Rule("R1", "matrix package: Translation, Scaling, Rotation, Skew, Identity, New, Determinant, mult/Mul/Mul3, LeftMultBy, RightMultBy, Apply, Invert and the in-place Translate/Scale/Rotate/Skew have the specification normal forms", 16)
@@ -901,5 +902,45 @@ func c17Angles(c *core.Check, r *core.Rule) {
 		}
 		n, _ := constant.Int64Val(v)
 		r.Cond(strings.ToLower(unitName[n]) == constant.StringVal(e.Key), "AngleUnits["+constant.StringVal(e.Key)+"]", p.Pos(e.Val.Pos()), unitName[n], "maps to "+unitName[n])
+	}
+}
+
+// c17Determinant: invertibility is `determinant != 0`; a reflection has a negative determinant and is invertible.
+func c17Determinant(c *core.Check) {
+	p := c.Prog
+	r := c.Rule("R5", "every test of a matrix determinant in the module compares it with 0 by == or != (a transform with a negative determinant, a reflection, is invertible and must be applied)", 2)
+	n := 0
+	for _, fn := range p.ModFuncs {
+		core.Instrs(fn, func(in ssa.Instruction) {
+			bo, ok := in.(*ssa.BinOp)
+			if !ok {
+				return
+			}
+			isDet := func(v ssa.Value) bool {
+				call, ok := v.(*ssa.Call)
+				return ok && call.Call.StaticCallee() != nil && call.Call.StaticCallee().Name() == "Determinant"
+			}
+			var other ssa.Value
+			switch {
+			case isDet(bo.X):
+				other = bo.Y
+			case isDet(bo.Y):
+				other = bo.X
+			default:
+				return
+			}
+			switch bo.Op {
+			case token.EQL, token.NEQ, token.LSS, token.LEQ, token.GTR, token.GEQ:
+			default:
+				return
+			}
+			n++
+			z, isZ := core.ConstFloat(other)
+			okCmp := (bo.Op == token.EQL || bo.Op == token.NEQ) && isZ && z == 0
+			r.Cond(okCmp, core.FuncName(fn)+" | "+p.StmtTextAt(fn, bo.Pos())+" | determinant test", p.Pos(bo.Pos()), "compared with 0 by "+bo.Op.String(), "the determinant is compared by "+bo.Op.String()+": matrices with a negative determinant (reflections) are treated as singular")
+		})
+	}
+	if n < 2 {
+		r.Unknown("determinant tests", "-", fmt.Sprintf("%d comparisons of a determinant found, 2 expected", n))
 	}
 }
